@@ -112,6 +112,16 @@ def decodeBool (f : CustomFeatureFormat α) (x : α) : Except StateErr Bool :=
   | .boolean _ => .ok (if x == (zero : α) then false else true)
   | _ => .error .decode
 
+/-- `name()`: the `UnitCodecType` text -/
+def name : CustomFeatureFormat α → String
+  | .floatingPoint _ => "floating_point"
+  | .signedInteger _ => "signed_integer"
+  | .unsignedInteger _ => "unsigned_integer"
+  | .boolean _ => "boolean"
+
+/-- `Default for CustomFeatureFormat` -/
+def default : CustomFeatureFormat α := .floatingPoint zero
+
 /-- `initial()`: the format's own initial value through its own encoder -/
 def initial (f : CustomFeatureFormat α) : Except StateErr α :=
   match f with
@@ -165,6 +175,11 @@ def getCustomFeatureFormat : StateFeature α → Except StateErr (CustomFeatureF
   | _ => .error .unexpectedFeatureUnit
 
 variable [Lit α] [IntCodec α] [LT α] [DecidableLT α] [BEq α]
+
+/-- `get_feature_format`: the custom feature's format, the default format for every other kind -/
+def getFeatureFormat : StateFeature α → CustomFeatureFormat α
+  | .custom _ _ f => f
+  | _ => CustomFeatureFormat.default
 
 /-- `get_initial` -/
 def getInitial : StateFeature α → Except StateErr α
@@ -453,12 +468,14 @@ end custom
 
 end StateModel
 
-/-- `search_app_ops::collect_features`: the traversal model's features, then the access model's, are
-    collected into a `HashMap` (a repeated name keeps the later feature); every feature of the query's
+/-- `search_app_ops::collect_features`: the traversal model's features, then the access model's, in
+    declaration order — a later feature of the same name replaces the earlier one in place (here:
+    `HMap.ofList`, the same insert-or-replace-in-place on a list); every feature of the query's
     `state_features` must name one of them (`UnknownStateVariableName`) and have the same
     `get_feature_type` (`UnexpectedFeatureType`); the result is the model features followed by the
-    query's.  (`HashMap` iteration order — hence the order of the result and which of several errors is
-    reported — is unspecified; here: list order.) -/
+    query's.  (The query's features come out of a `HashMap`: their relative order — and which of
+    several offending entries is reported — is unspecified; here: list order.  They all name model
+    features, so `StateModel::extend` replaces in place and the resulting model does not depend on it.) -/
 def collectFeatures {α : Type} (traversal access : List (String × StateFeature α))
     (user : Option (List (String × StateFeature α))) :
     Except StateErr (List (String × StateFeature α)) :=
